@@ -214,6 +214,11 @@ def main():
     cases = json.load(open(cases_path))
     results = []
     for case in cases:
+        # typing's parametrisation caches are keyed with ==, and Union[int, str] == Union[str, int]: an alias built
+        # earlier in this process (another case) would decide the member order of Optional[...]/List[...] built now.
+        # Every case starts from empty caches so that the rendered order depends on the case alone.
+        for cleanup in typing._cleanups:
+            cleanup()
         own = case["own"]
         mod = importlib.import_module(own)
         fd_terms, defs = [], []
